@@ -47,7 +47,17 @@ def run(ctx, model_ok):
         "inputs (rotate_from_* steps are such steps by C09(j); add / remove copy subtrees); own_sensor_reading_invariant_history is proved over a group only — on the carrier it "
         "follows from history_index_map_on_driver_carrier with tensor_eq_spec_on_driver_carrier, not instantiated; the driver's reading (`Node.ownTensor` = Model/Level2 `tensor` on "
         "the objects at the addresses) is tied to getB(collection, own sensor) exactly by the `path` own-sensor rows, and its equality with `reading` is `tensor_eq_spec` (C06), "
-        "not restated for ownTensor",
+        "restated for ownTensor by audit2 (`ownTensor_eq_readings`; `own_sensor_tensor_invariant_history`: row i of the driver's tensor after the history = row histIdx(i) before, both "
+        "rows exist) over a group with lawful BEq — still not instantiated on the M3 Int carrier",
+        "audit2: own_sensor_field_invariant is the one-operation statement for `rotate` / rotate_from_* on the collection only; move / position= / orientation= / reset_path reach the "
+        "own-sensor reading only through own_sensor_reading_invariant_history (members not touched, `AdmissibleAt`). 'Invariant' means: the reading at new index i equals the reading at "
+        "the old index the operation's index map sends i to (paths change length), not equality of whole arrays",
+        "audit2: relative poses are tracked in the frame of the ROOT collection of the tree (history_index_map, history_index_map_some). For an operation addressed to an INNER collection "
+        "the invariance of its members' poses relative to THAT collection is contained in the abstract step (descendant_step_spelled_out: the child's own forest is re-indexed) and follows "
+        "by applying the root theorems to the subtree (`Node.modifyAt (i :: rest)` acts on child i as `modifyAt rest`); the projection of a mixed history onto a subtree is not stated as a theorem",
+        "audit2: `Admissible` / `AdmissibleAt` require an added object or collection to have the CURRENT common path length (`c.UniformLen N`): adding a fresh length-1 object to a collection "
+        "whose path is longer leaves the property's domain like a length-changing descendant operation does; the proved counter-example in Props/C10 shows that the equal-length hypothesis "
+        "cannot be dropped (relative pose at index 1 changes under a vector `move` of a collection whose child has a longer path)",
         "float rounding: oracle (coll.getB with an internal sensor, 1e-9); the own-sensor stream rows are exact (integer positions, octahedral rotations, integer affine field functions)",
     ]
     ctx.assumptions += ["scipy Rotation is a group acting linearly on R^3", "np.pad(edge)/slicing behave as edgePad/mapSlice"]
